@@ -114,6 +114,7 @@ def run(ctx):
     ctx.do(rule_removal_is_a_filter)
     ctx.do(rule_markings_normalised)
     ctx.do(rule_kind_options_separable)
+    ctx.do(rule_object_level_add_is_idempotent)
     # whether a selector addresses something is decided by the walk of the object: the same walk rules as C08
     from . import C08
     ctx.do(C08.rule_truthiness, rule_id="C07.validate-first")
@@ -633,3 +634,24 @@ def rule_kind_options_separable(ctx, R="C07.query-siblings"):
                       found="%s with %s" % (short(c, 100), bad[1] if bad else None))
     if n < 4:
         raise AnalysisError("fewer than 4 option/value conditions found in the granular marking functions (%d)" % n)
+
+
+def rule_object_level_add_is_idempotent(ctx, R="C07.normal-form"):
+    """Adding is idempotent: object-level add_markings() builds the new object_marking_refs as a SET of the old references and
+    the added ones (a marking the object already carries is not listed twice).  The value handed to new_version() under
+    object_marking_refs derives from a de-duplicating construction (set / dict.fromkeys / the library's deduplicate)."""
+    run = ctx.run
+    prog = ctx.prog
+    fi = prog.func(OBJ + "::add_markings")
+    calls = [c for c in body_walk(fi.node) if isinstance(c, ast.Call) and call_simple_name(c) == "new_version"]
+    if len(calls) != 1:
+        raise AnalysisError("object_markings.add_markings: expected one new_version call")
+    kw = [k for k in calls[0].keywords if k.arg == "object_marking_refs"]
+    if not kw:
+        raise AnalysisError("object_markings.add_markings: object_marking_refs is not passed to new_version")
+    pr = flow_of(fi).prov(kw[0].value)
+    run.check(bool(pr.calls & {"set", "frozenset", "fromkeys", "deduplicate", "union"}), R,
+              key(fi.module.relpath, fi.qualname, "added-references-form-a-set"),
+              "the new object_marking_refs is not built as a set of the old and the added references: adding a marking the object "
+              "already carries lists it twice -- adding is not idempotent", file=fi.module.relpath, line=calls[0].lineno,
+              function=fi.qualname, expected="set(<old> + <added>)", found=short(kw[0].value, 80))
